@@ -322,6 +322,14 @@ func splitFilter(s, sep string) any {
 func uniqFilter(a []any) (result []any) {
 	seenMap := map[any]bool{}
 	seen := func(item any) bool {
+		if item == nil {
+			// reflect.TypeOf(nil) is nil; nil is comparable
+			if seenMap[nil] {
+				return true
+			}
+			seenMap[nil] = true
+			return false
+		}
 		if k := reflect.TypeOf(item).Kind(); k < reflect.Array || k == reflect.Ptr || k == reflect.UnsafePointer {
 			if seenMap[item] {
 				return true
